@@ -812,3 +812,87 @@ Proof.
   apply andb_prop in H. destruct H as [H Hf]. apply andb_prop in H. destruct H as [H1 H3].
   destruct (top_ref d H1 H3 (VDoc f)) as [_ Hq]. exact (Hq Hf).
 Qed.
+
+(* ---------------------------------------------------------------- *)
+(* the boundaries of the core domain: concrete inputs on which lungo's
+   matcher and the reference semantics differ (each was also run against the
+   real mongokit.Match).  `b` is what lungo answers. *)
+
+Definition differs (d f : doc) (lungo : bool) : Prop :=
+  Match d f = Ok lungo /\ RefMatch.holds d f = negb lungo /\ coreb d f = false.
+
+(* outside D2: null against a fan-out path — MongoDB matches (the second
+   element has no b), lungo drops missing entries while collecting *)
+Example null_fanout_refuted :
+  differs [("a", VArr [VDoc [("b", VInt32 1)]; VDoc [("c", VInt32 2)]])] [("a.b", VNull)] false.
+Proof. vm_compute. repeat split. Qed.
+
+(* outside D3: a field named "0" inside an array element — MongoDB follows the
+   field name too, lungo takes the index branch only *)
+Example numeric_field_refuted :
+  differs [("a", VArr [VDoc [("0", VInt32 5)]])] [("a.0", VInt32 5)] false.
+Proof. vm_compute. repeat split. Qed.
+
+(* outside D1: an array directly inside an array — MongoDB does not traverse
+   it, lungo's collecting get does *)
+Example nested_array_refuted :
+  differs [("a", VArr [VArr [VDoc [("b", VInt32 1)]]])] [("a.b", VInt32 1)] true.
+Proof. vm_compute. repeat split. Qed.
+
+(* outside D2: an array operand under fan-out — lungo merges the collected
+   arrays before comparing *)
+Example array_operand_fanout_refuted :
+  differs [("a", VArr [VDoc [("b", VArr [VInt32 1; VInt32 2])]; VDoc [("b", VArr [VInt32 3])]])]
+          [("a.b", VArr [VInt32 3])] false.
+Proof. vm_compute. repeat split. Qed.
+
+(* found while testing the statement of match_ref on generated pairs
+   (family matchref); each is excluded from `core` by a clause of core_op *)
+
+(* $type "null" also selects documents that lack the field *)
+Example type_null_missing_refuted :
+  differs [("b", VInt32 1)] [("a", VDoc [("$type", VString "null")])] true.
+Proof. vm_compute. repeat split. Qed.
+
+(* under fan-out array leaves are merged into their elements: $type "array"
+   no longer sees them *)
+Example type_array_fanout_refuted :
+  differs [("a", VArr [VDoc [("b", VArr [VInt32 1])]])] [("a.b", VDoc [("$type", VString "array")])] false.
+Proof. vm_compute. repeat split. Qed.
+
+(* under fan-out $exists tests the merged collection for emptiness: an empty
+   array at the path does not count as existing *)
+Example exists_fanout_empty_refuted :
+  differs [("a", VArr [VDoc [("b", VArr [])]])] [("a.b", VDoc [("$exists", VBool true)])] false.
+Proof. vm_compute. repeat split. Qed.
+
+(* $size under (two-level) fan-out measures the collected result lists *)
+Example size_fanout_refuted :
+  differs [("a", VArr [VDoc [("b", VArr [VDoc [("c", VArr [VInt32 1; VInt32 2])]])]])]
+          [("a.b.c", VDoc [("$size", VInt32 2)])] false.
+Proof. vm_compute. repeat split. Qed.
+
+(* ... and takes an empty collection for an empty array *)
+Example size_fanout_phantom_refuted :
+  differs [("a", VArr [VDoc [("b", VArr [])]])] [("a.b.c", VDoc [("$size", VInt32 0)])] true.
+Proof. vm_compute. repeat split. Qed.
+
+(* $all with an array operand next to an element operand: lungo needs all
+   operands to be elements, or all to equal the field *)
+Example all_mixed_refuted :
+  differs [("a", VArr [VInt32 1; VInt32 2])]
+          [("a", VDoc [("$all", VArr [VInt32 1; VArr [VInt32 1; VInt32 2]])])] false.
+Proof. vm_compute. repeat split. Qed.
+
+(* non-vacuity of match_ref_partial: covered pairs with fan-out, both answers *)
+Example match_ref_example :
+  core_covered [("a", VArr [VDoc [("b", VInt32 1)]; VDoc [("b", VArr [VInt32 5; VInt32 7])]; VDoc [("c", VNull)]]); ("n", VInt32 7)]
+               [("$or", VArr [VDoc [("a.b", VDoc [("$gt", VInt32 6)])]; VDoc [("x", VNull)]]);
+                ("n", VDoc [("$not", VDoc [("$mod", VArr [VInt32 2; VInt32 0])]); ("$type", VString "number")])]
+  /\ Match [("a", VArr [VDoc [("b", VInt32 1)]; VDoc [("b", VArr [VInt32 5; VInt32 7])]; VDoc [("c", VNull)]]); ("n", VInt32 7)]
+           [("$or", VArr [VDoc [("a.b", VDoc [("$gt", VInt32 6)])]; VDoc [("x", VNull)]]);
+            ("n", VDoc [("$not", VDoc [("$mod", VArr [VInt32 2; VInt32 0])]); ("$type", VString "number")])]
+     = Ok true
+  /\ core_covered [("a", VArr [VDoc [("b", VInt32 1)]])] [("a.b", VDoc [("$in", VArr [VInt32 2; VString "x"])])]
+  /\ Match [("a", VArr [VDoc [("b", VInt32 1)]])] [("a.b", VDoc [("$in", VArr [VInt32 2; VString "x"])])] = Ok false.
+Proof. vm_compute. repeat split. Qed.
